@@ -109,4 +109,11 @@ CHECKS["C56"] = dict(level="exploration", technique="integer crystallography in 
          "unit normals/directions, orientation tensors = direction (x) normal, Schmid factors in [-1/2, 1/2] and the rank structure are "
          "flags computed on the floating-point outputs.",
     note="HCP is not covered. The statement's rank-symmetry clause contradicts the documentation (non symmetric FCC matrix) and is not asserted.", ref="8/C56")
+CHECKS["C08"] = dict(level="model_checking", technique="TLC model checking of the solver control flow (NonLinearSolver.tla) + trace validation of CRTP callbacks of the 6 real solvers",
+    text="The control flow of solveNonLinearSystem / solveNonLinearSystem2 is a transition system with nondeterministic numerical outcomes, "
+         "model-checked for 'success implies a finite, converged residual evaluated at the returned unknowns', the iteration bound and "
+         "termination; every callback of CRTP children of the Newton-Raphson, Broyden, Broyden2, Powell dog-leg (2) and Levenberg-Marquardt "
+         "solvers is logged while they solve scripted systems (sizes 1-8, budgets 0-30) with failures and NaN injected at chosen evaluations, "
+         "and each execution is validated event by event against the specification, invariants included; Newton started inside its basin must succeed at the root.",
+    note="The seam is the CRTP child (no hook). Numerical outcomes are not modelled (any outcome is admissible to the model).", ref="8/C08")
 NOT_APPLICABLE = {}
